@@ -101,14 +101,11 @@ impl AnonymizePlugin {
         if msg.is_ctrl_response() {
             let mut args = msg.into_iter();
             let message_id_arg = args.next();
-            let message_id = match message_id_arg {
-                Some(a) => {
-                    if a.is_big_endian {
-                        u32::from_be_bytes(a.payload_raw.get(0..4).unwrap().try_into().unwrap())
-                    } else {
-                        u32::from_le_bytes(a.payload_raw.get(0..4).unwrap().try_into().unwrap())
-                    }
-                }
+            let message_id = match message_id_arg
+                .and_then(|a| a.payload_raw.get(0..4).map(|b| (a.is_big_endian, b)))
+            {
+                Some((true, b)) => u32::from_be_bytes(b.try_into().unwrap()),
+                Some((false, b)) => u32::from_le_bytes(b.try_into().unwrap()),
                 None => 0,
             };
             match message_id {
